@@ -20,7 +20,7 @@ MANIFEST = {
             "statement's 'same best path' is taken literally. Thorough tier: traces of length 5 on the named graphs, 4-node family.",
     "technique": "explicit enumeration of all operation histories (compositions of the trace) on the real object, differential oracle against the one-shot run",
 }
-BUDGET = {"quick": 420, "thorough": 3000}
+BUDGET = {"quick": 900, "thorough": 3000}
 RULE = ("states = distinct (input, configuration, composition) histories executed, transitions = match calls, traces validated = "
         "histories compared with the one-shot result; non-trivial = a cut falls inside a non-emitting bridge of the best path, or "
         "the match stops early, or width pruning is on; outcomes = canonical one-shot results.")
